@@ -433,3 +433,456 @@ Proof.
   replace (match t with [] => RPath path_default | _ :: _ => RPath t end) with (RPath path) by (destruct t; reflexivity).
   rewrite <- dispatch_spec. destruct (dispatch O method (routelist m) path) as [[[r d]|] tr]; reflexivity.
 Qed.
+
+(* ---------- greedy: the returned decomposition is the longest-first one *)
+Fixpoint lex_ge (a b : list text) : Prop :=
+  match a, b with
+  | x :: a', y :: b' => length y < length x \/ (length y = length x /\ lex_ge a' b')
+  | _, _ => True
+  end.
+
+Lemma lex_ge_refl a : lex_ge a a.
+Proof. induction a as [|x a IH]; simpl; auto. Qed.
+
+Lemma flat_lens {B} (G : nat -> list B) n : forall x l y,
+  flat_map G (lens_desc n) = x :: l -> In y (flat_map G (lens_desc n)) ->
+  exists k0 k, k <= k0 /\ k0 <= n /\ hd_error (G k0) = Some x /\ In y (G k).
+Proof.
+  induction n as [|n IH]; intros x l y Hx Hy.
+  - simpl in *. rewrite app_nil_r in *. exists 0, 0. rewrite Hx in *. repeat split; auto.
+  - change (lens_desc (S n)) with (S n :: lens_desc n) in *. cbn [flat_map] in *.
+    destruct (G (S n)) as [|x1 l1] eqn:E.
+    + simpl in *. destruct (IH x l y Hx Hy) as (k0 & k & H1 & H2 & H3 & H4).
+      exists k0, k. repeat split; auto.
+    + simpl in Hx. injection Hx as -> _. apply in_app_or in Hy. destruct Hy as [Hy|Hy].
+      * exists (S n), (S n). rewrite E. repeat split; auto.
+      * apply in_flat_map in Hy. destruct Hy as (k & Hk & Hy). apply In_lens_desc in Hk.
+        exists (S n), k. rewrite E. repeat split; auto.
+Qed.
+
+Theorem all_decs_head_greatest O st its : forall s x l y,
+  all_decs O st its s = x :: l -> In y (all_decs O st its s) -> lex_ge x y.
+Proof.
+  induction its as [|[lt|n h] its IH]; intros s x l y Hx Hy.
+  - simpl in *. unfold all_decs_end in *. destruct st.
+    + injection Hx as <- <-. destruct Hy as [<-|[]]. apply lex_ge_refl.
+    + destruct s; [|discriminate]. injection Hx as <- <-. destruct Hy as [<-|[]]. apply lex_ge_refl.
+  - simpl in *. destruct (strip_prefix lt s); [eapply IH; eauto|discriminate].
+  - simpl in Hx, Hy.
+    destruct (flat_lens _ _ _ _ _ Hx Hy) as (k0 & k & Hk & Hk0 & H0 & Hyk).
+    destruct (hole_ok O h (firstn k0 s)); [|discriminate].
+    destruct (hole_ok O h (firstn k s)); [|destruct Hyk].
+    destruct (all_decs O st its (skipn k0 s)) as [|x' l'] eqn:E0; [discriminate|].
+    simpl in H0. injection H0 as <-.
+    apply in_map_iff in Hyk. destruct Hyk as (c & <- & Hc).
+    simpl. rewrite !firstn_length_le by lia.
+    destruct (Nat.eq_dec k k0) as [->|Hne]; [|left; lia].
+    right. split; [reflexivity|]. eapply IH; [exact E0|exact Hc].
+Qed.
+
+Theorem mi_greedy O st its s caps caps' :
+  mi (kend EndZ true st) O its s = Some caps ->
+  s = render its caps' -> caps_ok O st its caps' = true -> lex_ge caps caps'.
+Proof.
+  rewrite mi_all_decs. intros H Hs Hok.
+  destruct (all_decs O st its s) as [|x l] eqn:E; [discriminate|]. injection H as ->.
+  eapply all_decs_head_greatest; [exact E|]. apply all_decs_char. auto.
+Qed.
+
+(* ---------- the '$' anchor / remainder without DOTALL (the unrepaired source):
+   same behaviour on newline-free paths, deviations with a newline *)
+Lemma at_end_nonl a t : ~ In c_nl t -> at_end a t = at_end EndZ t.
+Proof.
+  destruct t as [|c [|d t]]; simpl; auto. intros H. destruct a; [|reflexivity].
+  destruct (N.eqb_spec c c_nl); [exfalso; apply H; left; auto|reflexivity].
+Qed.
+
+Lemma lazy_star_nonl a b : forall t acc, ~ In c_nl t -> lazy_star a b acc t = Some (rev acc ++ t).
+Proof.
+  induction t as [|c t IH]; intros acc H.
+  - simpl. rewrite app_nil_r. reflexivity.
+  - assert (Hc : (c =? c_nl)%N = false) by (destruct (N.eqb_spec c c_nl); [exfalso; apply H; left; auto|reflexivity]).
+    assert (Ht : ~ In c_nl t) by (intros X; apply H; right; exact X).
+    cbn [lazy_star]. rewrite (at_end_nonl a (c :: t) H).
+    replace (at_end EndZ (c :: t)) with false by (destruct t; reflexivity).
+    rewrite Hc, orb_true_r. rewrite (IH (c :: acc) Ht). simpl. rewrite <- app_assoc. reflexivity.
+Qed.
+
+Lemma kend_nonl a b st t : ~ In c_nl t -> kend a b st t = kend EndZ true st t.
+Proof.
+  intros H. unfold kend. destruct st.
+  - rewrite (lazy_star_nonl a b t [] H), (lazy_star_nonl EndZ true t [] H). reflexivity.
+  - rewrite (at_end_nonl a t H). reflexivity.
+Qed.
+
+Lemma back_ext lo k1 k2 : (forall t, ~ In c_nl t -> k1 t = k2 t) ->
+  forall tr rest, ~ In c_nl (rev tr ++ rest) -> back lo tr rest k1 = back lo tr rest k2.
+Proof.
+  intros Hk. induction tr as [|c tr IH]; intros rest H; simpl.
+  - simpl in H. rewrite (Hk rest H). reflexivity.
+  - assert (Hr : ~ In c_nl rest) by (intros X; apply H; apply in_or_app; right; exact X).
+    rewrite (Hk rest Hr). rewrite IH; [reflexivity|].
+    simpl in H. rewrite <- app_assoc in H. exact H.
+Qed.
+
+Lemma mi_ext O ek1 ek2 : (forall t, ~ In c_nl t -> ek1 t = ek2 t) ->
+  forall its s, ~ In c_nl s -> mi ek1 O its s = mi ek2 O its s.
+Proof.
+  intros Hk. induction its as [|[l|n h] its IH]; intros s H; simpl.
+  - apply Hk. exact H.
+  - destruct (strip_prefix l s) as [r|] eqn:E; [|reflexivity].
+    apply strip_prefix_spec in E. subst s. apply IH. intros X. apply H. apply in_or_app. right. exact X.
+  - destruct (span_upto (cls_mem O (h_cls h)) (h_hi h) s) as [p r] eqn:E.
+    destruct (span_upto_spec _ _ _ _ _ E) as (Hs & _).
+    apply back_ext.
+    + intros t Ht. apply IH. exact Ht.
+    + rewrite rev_involutive, <- Hs. exact H.
+Qed.
+
+(* full statement "a match covers the whole path" restricted to newline-free paths:
+   holds whatever the anchor and the remainder group are *)
+Theorem match_whole_partial a b O p s :
+  ~ In c_nl s -> match_pat_with a b O p s = match_pat_with EndZ true O p s.
+Proof.
+  intros H. unfold match_pat_with.
+  rewrite (mi_ext O (kend a b (star p)) (kend EndZ true (star p))); [reflexivity| |exact H].
+  intros t Ht. apply kend_nonl. exact Ht.
+Qed.
+
+(* pattern-level forms for the facts of the current source *)
+Theorem match_greedy O p s caps caps' :
+  mi (kend the_anchor the_dotall (star p)) O (items p) s = Some caps ->
+  s = render (items p) caps' -> caps_ok O (star p) (items p) caps' = true -> lex_ge caps caps'.
+Proof. rewrite the_anchor_strict, the_dotall_on. apply mi_greedy. Qed.
+
+(* a bare {name} captures exactly one non-empty run without '/' *)
+Theorem default_hole_one_segment O v :
+  (exists h, parse_reg default_hole_regex = Some h /\ hole_ok O h v = true) <-> v <> [] /\ ~ In 47%N v.
+Proof.
+  rewrite default_hole_is_segment. split.
+  - intros (h & Hh & Hok). injection Hh as <-. unfold hole_ok in Hok. simpl in Hok.
+    apply andb_true_iff in Hok as [Hok Hf]. apply andb_true_iff in Hok as [Hl _]. split.
+    + intros ->. discriminate.
+    + intros Hin. rewrite forallb_forall in Hf. specialize (Hf _ Hin). simpl in Hf. discriminate.
+  - intros [Hne Hns]. exists spec_default_hole. split; [reflexivity|].
+    unfold hole_ok. simpl. rewrite andb_true_r. apply andb_true_iff. split.
+    + destruct v; [congruence|reflexivity].
+    + apply forallb_forall. intros x Hx. simpl. rewrite orb_false_r.
+      destruct (N.eqb_spec x 47%N) as [->|]; [contradiction|reflexivity].
+Qed.
+
+(* ---------- RoutesMapper.connect over a list of declarations = "the last declaration of a
+   name wins and takes the later place; static routes are not matched" *)
+Definition key (e : nat * decl) : text := d_name (snd e).
+Definition nonstatic (e : nat * decl) : bool := negb (d_static (snd e)).
+Definition pat_or_empty (O : oracle) (src : text) : pat :=
+  match parse_pattern O src with Ok p => p | _ => mkPat [] None end.
+Definition mkr (O : oracle) (e : nat * decl) : route :=
+  mkRoute (fst e) (key e) (pat_or_empty O (d_src (snd e))) (d_preds (snd e)).
+Definition parses (O : oracle) (d : decl) : Prop := exists p, parse_pattern O (d_src d) = Ok p.
+Definition other_key (x e : nat * decl) : bool := negb (text_eqb (key e) (key x)).
+
+Lemma last_wins_snoc l x :
+  last_wins (l ++ [x]) = filter (other_key x) (last_wins l) ++ [x].
+Proof.
+  induction l as [|y l IH]; simpl; [reflexivity|].
+  rewrite existsb_app. simpl. rewrite orb_false_r.
+  destruct (existsb (fun e => text_eqb (d_name (snd e)) (d_name (snd y))) l) eqn:Ex; simpl.
+  - exact IH.
+  - unfold other_key at 1, key. destruct (text_eqb_spec (d_name (snd x)) (d_name (snd y))) as [E|NE].
+    + rewrite IH. simpl. unfold other_key at 2, key. rewrite <- E, text_eqb_refl. reflexivity.
+    + rewrite IH. simpl. unfold other_key at 2, key.
+      destruct (text_eqb_spec (d_name (snd y)) (d_name (snd x))) as [E'|_]; [congruence|]. reflexivity.
+Qed.
+
+Lemma last_wins_In l e : In e (last_wins l) -> In e l.
+Proof.
+  induction l as [|y l IH]; simpl; [auto|].
+  destruct (existsb _ l); simpl; intros H; [right; auto|destruct H; auto].
+Qed.
+
+Lemma last_wins_keys_unique l : forall y, In y (last_wins l) ->
+  forall l1 l2, last_wins l = l1 ++ y :: l2 -> Forall (fun e => key e <> key y) l2.
+Proof.
+  induction l as [|z l IH]; simpl; intros y Hy l1 l2 E.
+  - destruct l1; discriminate.
+  - destruct (existsb (fun e => text_eqb (d_name (snd e)) (d_name (snd z))) l) eqn:Ex.
+    + eapply IH; eauto.
+    + destruct l1 as [|w l1]; simpl in E.
+      * injection E as -> <-. apply Forall_forall. intros e He Hk.
+        assert (X : existsb (fun e => text_eqb (d_name (snd e)) (d_name (snd y))) l = true).
+        { apply existsb_exists. exists e. split; [apply last_wins_In; exact He|]. apply text_eqb_eq. exact Hk. }
+        congruence.
+      * injection E as -> E. destruct Hy as [<-|Hy].
+        -- eapply IH; [|exact E]. rewrite E. apply in_or_app. right. left. reflexivity.
+        -- eapply IH; eauto.
+Qed.
+
+Lemma filter_other_none x L :
+  find (fun e => text_eqb (key x) (key e)) L = None -> filter (other_key x) L = L.
+Proof.
+  induction L as [|y L IH]; simpl; [reflexivity|]. unfold other_key at 1.
+  destruct (text_eqb_spec (key x) (key y)) as [E|NE]; [discriminate|].
+  destruct (text_eqb_spec (key y) (key x)) as [E'|_]; [congruence|]. simpl. intros H. rewrite IH; auto.
+Qed.
+
+Lemma filter_other_all x L : Forall (fun e => key e <> key x) L -> filter (other_key x) L = L.
+Proof.
+  induction 1 as [|y L Hy HL IH]; simpl; [reflexivity|]. unfold other_key at 1.
+  destruct (text_eqb_spec (key y) (key x)); [contradiction|]. simpl. rewrite IH. reflexivity.
+Qed.
+
+Lemma remove_id_absent O i L : ~ In i (map fst L) -> remove_id i (map (mkr O) L) = map (mkr O) L.
+Proof.
+  induction L as [|y L IH]; simpl; intros H; [reflexivity|].
+  destruct (Nat.eqb_spec (fst y) i) as [E|NE]; [exfalso; auto|]. rewrite IH; auto.
+Qed.
+
+Lemma In_filter_fst {A} (f : nat * A -> bool) i L : In i (map fst (filter f L)) -> In i (map fst L).
+Proof.
+  induction L as [|y L IH]; simpl; [auto|]. destruct (f y); simpl; intros H; [destruct H; auto|auto].
+Qed.
+
+(* removing the old route of that name from routelist *)
+Lemma remove_old O x e : forall L,
+  NoDup (map fst L) ->
+  (forall y, In y L -> forall l1 l2, L = l1 ++ y :: l2 -> Forall (fun e => key e <> key y) l2) ->
+  find (fun e => text_eqb (key x) (key e)) L = Some e ->
+  remove_id (fst e) (map (mkr O) (filter nonstatic L)) = map (mkr O) (filter nonstatic (filter (other_key x) L)).
+Proof.
+  induction L as [|y L IH]; intros ND U F; simpl in *; [discriminate|].
+  inversion ND as [|? ? Hny ND']; subst.
+  assert (U' : forall y0, In y0 L -> forall l1 l2, L = l1 ++ y0 :: l2 -> Forall (fun e => key e <> key y0) l2).
+  { intros y0 H0 l1 l2 E. apply (U y0 (or_intror H0) (y :: l1) l2). rewrite E. reflexivity. }
+  unfold other_key at 1.
+  destruct (text_eqb_spec (key x) (key y)) as [E|NE].
+  - injection F as <-. rewrite <- E, text_eqb_refl. simpl.
+    assert (HL : filter (other_key x) L = L).
+    { apply filter_other_all. rewrite E. apply (U y (or_introl eq_refl) [] L). reflexivity. }
+    rewrite HL. destruct (nonstatic y) eqn:Ny; simpl.
+    + rewrite Nat.eqb_refl. reflexivity.
+    + apply remove_id_absent. intros H. apply Hny. eapply In_filter_fst. exact H.
+  - destruct (text_eqb_spec (key y) (key x)) as [E'|_]; [congruence|]. simpl.
+    assert (He : In e L) by (apply find_some in F; tauto).
+    destruct (nonstatic y) eqn:Ny; simpl.
+    + destruct (Nat.eqb_spec (fst y) (fst e)) as [Eid|_].
+      * exfalso. apply Hny. rewrite Eid. apply in_map. exact He.
+      * rewrite IH; auto.
+    + apply IH; auto.
+Qed.
+
+Lemma assoc_get_set M k v k' :
+  assoc_get (assoc_set M k v) k' = if text_eqb k' k then Some v else assoc_get M k'.
+Proof.
+  induction M as [|[k0 v0] M IH]; simpl.
+  - reflexivity.
+  - destruct (text_eqb_spec k k0) as [->|NE]; simpl.
+    + destruct (text_eqb_spec k' k0); reflexivity.
+    + rewrite IH. destruct (text_eqb_spec k' k0) as [->|]; [|reflexivity].
+      destruct (text_eqb_spec k0 k); [congruence|reflexivity].
+Qed.
+
+Lemma find_filter_other x k L : k <> key x ->
+  find (fun e => text_eqb k (key e)) (filter (other_key x) L) = find (fun e => text_eqb k (key e)) L.
+Proof.
+  intros NE. induction L as [|y L IH]; simpl; [reflexivity|]. unfold other_key at 1.
+  destruct (text_eqb_spec (key y) (key x)) as [E|NE']; simpl.
+  - destruct (text_eqb_spec k (key y)); [congruence|exact IH].
+  - destruct (text_eqb_spec k (key y)); [reflexivity|exact IH].
+Qed.
+
+Lemma find_filter_same x L : find (fun e => text_eqb (key x) (key e)) (filter (other_key x) L) = None.
+Proof.
+  induction L as [|y L IH]; simpl; [reflexivity|]. unfold other_key at 1.
+  destruct (text_eqb_spec (key y) (key x)) as [E|NE']; simpl; [exact IH|].
+  destruct (text_eqb_spec (key x) (key y)); [congruence|exact IH].
+Qed.
+
+Lemma find_app {A} (f : A -> bool) l1 l2 :
+  find f (l1 ++ l2) = match find f l1 with Some x => Some x | None => find f l2 end.
+Proof. induction l1 as [|x l1 IH]; simpl; [reflexivity|]. destruct (f x); auto. Qed.
+
+Definition Inv (O : oracle) (pre : list (nat * decl)) (m : mapper) : Prop :=
+  routelist m = map (mkr O) (filter nonstatic (last_wins pre))
+  /\ forall k, assoc_get (routes m) k
+               = option_map (mkr O) (find (fun e => text_eqb k (key e)) (last_wins pre)).
+
+Lemma NoDup_sub_last_wins l : NoDup (map fst l) -> NoDup (map fst (last_wins l)).
+Proof.
+  induction l as [|y l IH]; simpl; intros H; [constructor|]. inversion H; subst.
+  destruct (existsb _ l); [auto|]. simpl. constructor; [|auto].
+  intros X. apply in_map_iff in X. destruct X as (e & E1 & E2). apply last_wins_In in E2.
+  apply H2. rewrite <- E1. apply in_map. exact E2.
+Qed.
+
+Lemma connect_step O pre m id d :
+  Inv O pre m -> parses O d -> NoDup (map fst pre) ->
+  exists m', connect O m id d = (m', Ok tt) /\ Inv O (pre ++ [(id, d)]) m'.
+Proof.
+  intros [Hrl Has] [p Hp] ND. set (x := (id, d)).
+  assert (Hrl' : match assoc_get (routes m) (d_name d) with
+                 | Some old => remove_id (r_id old) (routelist m)
+                 | None => routelist m
+                 end = map (mkr O) (filter nonstatic (filter (other_key x) (last_wins pre)))).
+  { rewrite (Has (d_name d)). change (d_name d) with (key x).
+    destruct (find (fun e => text_eqb (key x) (key e)) (last_wins pre)) as [e|] eqn:F; simpl.
+    - rewrite Hrl. apply remove_old; auto.
+      + apply NoDup_sub_last_wins. exact ND.
+      + intros y Hy l1 l2 E. eapply last_wins_keys_unique; eauto.
+    - rewrite (filter_other_none x _ F). exact Hrl. }
+  assert (Hx : mkRoute id (d_name d) p (d_preds d) = mkr O x).
+  { unfold mkr, pat_or_empty, x, key. simpl. rewrite Hp. reflexivity. }
+  unfold connect. rewrite Hp, Hrl', Hx.
+  assert (Hassoc : forall k, assoc_get (assoc_set (routes m) (d_name d) (mkr O x)) k
+            = option_map (mkr O) (find (fun e => text_eqb k (key e)) (last_wins (pre ++ [x])))).
+  { intros k. rewrite assoc_get_set, last_wins_snoc, find_app. change (d_name d) with (key x).
+    destruct (text_eqb_spec k (key x)) as [->|NE].
+    - rewrite find_filter_same. simpl. rewrite text_eqb_refl. reflexivity.
+    - rewrite (find_filter_other x k _ NE), Has.
+      destruct (find (fun e => text_eqb k (key e)) (last_wins pre)); [reflexivity|].
+      simpl. destruct (text_eqb_spec k (key x)); [congruence|reflexivity]. }
+  assert (Hns : filter nonstatic [x] = if d_static d then [] else [x]).
+  { unfold x, nonstatic. simpl. destruct (d_static d); reflexivity. }
+  destruct (d_static d) eqn:St.
+  - eexists. split; [reflexivity|]. split; [|exact Hassoc].
+    cbn [routelist]. rewrite last_wins_snoc, filter_app, Hns, app_nil_r. reflexivity.
+  - eexists. split; [reflexivity|]. split; [|exact Hassoc].
+    cbn [routelist]. rewrite last_wins_snoc, filter_app, Hns, map_app. reflexivity.
+Qed.
+
+Lemma number_fst {A} (l : list A) : forall i, map fst (number i l) = seq i (length l).
+Proof. induction l as [|x l IH]; intros i; simpl; [reflexivity|]. rewrite IH. reflexivity. Qed.
+
+Lemma connect_all_inv O : forall l pre m m' sts,
+  Inv O pre m -> Forall (parses O) l -> map fst pre = seq 0 (length pre) ->
+  connect_all O m (length pre) l = (m', sts) ->
+  Forall (fun s => s = Ok tt) sts /\ Inv O (pre ++ number (length pre) l) m'.
+Proof.
+  induction l as [|d l IH]; intros pre m m' sts HI HP Hids H; simpl in H.
+  - injection H as <- <-. rewrite app_nil_r. auto.
+  - inversion HP as [|? ? Hd Hl]; subst.
+    destruct (connect_step O pre m (length pre) d HI Hd) as (m1 & E1 & HI1).
+    { rewrite Hids. apply seq_NoDup. }
+    rewrite E1 in H.
+    destruct (connect_all O m1 (S (length pre)) l) as [m2 sts2] eqn:E2.
+    injection H as <- <-.
+    assert (Hlen : length (pre ++ [(length pre, d)]) = S (length pre)) by (rewrite app_length; simpl; lia).
+    destruct (IH (pre ++ [(length pre, d)]) m1 m2 sts2 HI1 Hl) as [S2 I2].
+    + rewrite map_app, Hids, Hlen, seq_S. reflexivity.
+    + rewrite Hlen. exact E2.
+    + split; [constructor; auto|]. rewrite Hlen, <- app_assoc in I2. exact I2.
+Qed.
+
+Theorem connect_last_wins O ds m sts :
+  Forall (parses O) ds -> connect_all O empty_mapper 0 ds = (m, sts) ->
+  Forall (fun s => s = Ok tt) sts
+  /\ routelist m = map (mkr O) (filter nonstatic (last_wins (number 0 ds))).
+Proof.
+  intros HP H.
+  destruct (connect_all_inv O ds [] empty_mapper m sts) as [S [I _]]; auto.
+  split; reflexivity.
+Qed.
+
+(* the executable specification's route list is that list *)
+Lemma regex_sources_ok_true : regex_sources_ok = true.
+Proof. vm_compute. reflexivity. Qed.
+
+Lemma parse_pattern_core O src : parse_pattern O src = parse_core O (Some spec_default_hole) src.
+Proof. unfold parse_pattern, parse_pattern_with. rewrite regex_sources_ok_true, default_hole_is_segment. reflexivity. Qed.
+
+Lemma all_ok_parses O ds : all_ok O ds = true -> Forall (parses O) ds.
+Proof.
+  unfold all_ok. rewrite forallb_forall. intros H. apply Forall_forall. intros d Hd. specialize (H d Hd).
+  unfold parses. rewrite parse_pattern_core. destruct (parse_core O (Some spec_default_hole) (d_src d)); try discriminate. eauto.
+Qed.
+
+Lemma spec_routes_ok O L : Forall (fun e => parses O (snd e)) L ->
+  spec_routes O L = Ok (map (mkr O) (filter nonstatic L)).
+Proof.
+  induction 1 as [|[i d] L [p Hp] HL IH]; simpl; [reflexivity|].
+  rewrite IH. pose proof Hp as Hp'. rewrite parse_pattern_core in Hp'. simpl in Hp'. rewrite Hp'.
+  assert (Hns : nonstatic (i, d) = negb (d_static d)) by reflexivity. rewrite Hns.
+  destruct (d_static d); simpl; [reflexivity|].
+  unfold mkr at 2, pat_or_empty, key. simpl in *. rewrite Hp. reflexivity.
+Qed.
+
+Lemma number_In {A} (l : list A) : forall i e, In e (number i l) -> In (snd e) l.
+Proof. induction l as [|x l IH]; intros i e; simpl; [auto|]. intros [<-|H]; [left; reflexivity|right; eapply IH; eauto]. Qed.
+
+(* end to end, for declarations that all compile: what the mapper built by the connect
+   calls answers is what the declarative specification says *)
+Theorem request_spec O ds method raw m sts :
+  all_ok O ds = true -> connect_all O empty_mapper 0 ds = (m, sts) ->
+  Forall (fun s => s = Ok tt) sts
+  /\ spec_request O ds method raw =
+     match fst (dispatch_request O m method raw) with
+     | ODecodeError => SDecodeError
+     | OMatch r d => SMatch r d
+     | ONone => SNone
+     | OConfigError => SNothing
+     end.
+Proof.
+  intros Hok H. pose proof (all_ok_parses O ds Hok) as HP.
+  destruct (connect_last_wins O ds m sts HP H) as [S Hrl]. split; [exact S|].
+  unfold spec_request. rewrite Hok. simpl.
+  rewrite spec_routes_ok.
+  - rewrite <- Hrl. unfold dispatch_request. destruct (request_path raw) as [|path]; [reflexivity|].
+    rewrite <- dispatch_spec. destruct (dispatch O method (routelist m) path) as [[[r d]|] tr]; reflexivity.
+  - apply Forall_forall. intros e He. apply last_wins_In, number_In in He.
+    rewrite Forall_forall in HP. auto.
+Qed.
+
+(* a literal matches only itself: no regex metacharacter of the pattern text leaks *)
+Theorem lit_is_literal O l s : match_pat O (mkPat [Lit l] None) s = Some [] <-> s = l.
+Proof.
+  rewrite match_spec. unfold spec_match. simpl. split.
+  - destruct (strip_prefix l s) as [r|] eqn:E; [|discriminate]. apply strip_prefix_spec in E. subst s.
+    destruct r; [rewrite app_nil_r; auto|discriminate].
+  - intros ->. assert (E : strip_prefix l l = Some []) by (apply strip_prefix_spec; rewrite app_nil_r; reflexivity).
+    rewrite E. reflexivity.
+Qed.
+
+(* ---------- concrete witnesses *)
+Require Import Coq.Strings.String.
+Definition no_oracle : oracle := mkOracle (fun _ => false) (fun _ => false).
+Definition pat_of (src : String.string) : pat :=
+  match parse_pattern no_oracle (T src) with Ok p => p | _ => mkPat [] None end.
+
+(* with '$' and '.*?' the full statement is false: each line is a replay *)
+Example match_whole_refuted :
+  (* /foo matches "/foo\n" *)
+  match_pat_with Dollar false no_oracle (pat_of "/foo"%string) (T "/foo" ++ [c_nl]) = Some []
+  /\ spec_match no_oracle (pat_of "/foo"%string) (T "/foo" ++ [c_nl]) = None
+  (* /f/*rest on "/f/a\n" drops the newline *)
+  /\ match_pat_with Dollar false no_oracle (pat_of "/f/*rest"%string) (T "/f/a" ++ [c_nl])
+     = Some [(T "rest", MSegs [T "a"])]
+  /\ spec_match no_oracle (pat_of "/f/*rest"%string) (T "/f/a" ++ [c_nl])
+     = Some [(T "rest", MSegs [T "a" ++ [c_nl]])]
+  (* /f/*rest on "/f/a\nb" does not match at all *)
+  /\ match_pat_with Dollar false no_oracle (pat_of "/f/*rest"%string) (T "/f/a" ++ [c_nl] ++ T "b") = None
+  /\ spec_match no_oracle (pat_of "/f/*rest"%string) (T "/f/a" ++ [c_nl] ++ T "b")
+     = Some [(T "rest", MSegs [T "a" ++ [c_nl] ++ T "b"])].
+Proof. vm_compute. repeat split. Qed.
+
+(* non-vacuity: parsing, greedy splitting inside one segment, custom classes, old-style
+   placeholders, the remainder, ordering with a failing predicate, and a refused path *)
+Example c01_nonvacuous :
+  parse_pattern no_oracle (T "/f/{a}.{b:\d{2}}/*rest")
+    = Ok (mkPat [Lit (T "/f/"); Hole (T "a") spec_default_hole; Lit (T ".");
+                 Hole (T "b") (mkHre CDigit 2 (Some 2)); Lit (T "/")] (Some (T "rest")))
+  /\ match_pat no_oracle (pat_of "/f/{a}.{b:\d{2}}/*rest"%string) (T "/f/x.y.42/u/../v//w/")
+     = Some [(T "a", MText (T "x.y")); (T "b", MText (T "42")); (T "rest", MSegs [T "v"; T "w"])]
+  /\ match_pat no_oracle (pat_of "/:x/:y"%string) (T "/1/2") = Some [(T "x", MText (T "1")); (T "y", MText (T "2"))]
+  /\ match_pat no_oracle (pat_of "/{a}{b}"%string) (T "/xyz") = Some [(T "a", MText (T "xy")); (T "b", MText (T "z"))]
+  /\ match_pat no_oracle (pat_of "/a.b"%string) (T "/axb") = None
+  /\ (let rs := [mkRoute 0 (T "r0") (pat_of "/{a}"%string) [PConst false];
+                 mkRoute 1 (T "r1") (pat_of "/x"%string) [PMethod (T "GET")];
+                 mkRoute 2 (T "r2") (pat_of "/*all"%string) []] in
+      dispatch no_oracle (T "GET") rs (T "/x")
+        = (Some (mkRoute 1 (T "r1") (pat_of "/x"%string) [PMethod (T "GET")], []), [(0, 1); (1, 1)])
+      /\ fst (dispatch no_oracle (T "POST") rs (T "/x")) = Some (mkRoute 2 (T "r2") (pat_of "/*all"%string) [],
+                                                                  [(T "all", MSegs [T "x"])]))
+  /\ dispatch_request no_oracle empty_mapper (T "GET") (Some [47; 255]%N) = (ODecodeError, [])
+  /\ parse_pattern no_oracle (T "/{a}/{a}") = CompileError
+  /\ parse_pattern no_oracle (T "/{a:(x|y)}") = Unsupported.
+Proof. vm_compute. repeat split. Qed.
